@@ -729,3 +729,12 @@ SPECS["C10"]["level_text"] += "; AkaiImageParser._sanitize_string drops exactly 
 # round 5: the MDX payload window is a view like the others (C08); the batch writer contract also serves C01 (names with inner periods)
 SPECS["C08"]["contracts"] += ["smpl_extract.alcohol.mdx:MdxStream"]
 SPECS["C01"]["contracts"] += [f"smpl_extract.structural:ExportManager.export_samples[n={n}]" for n in (1, 2)]
+
+# C20 / C01: the sample adapter over the REAL loop-table size (8 slots, all 256 active / inactive patterns, S1000 and S3000 alike)
+for _p in ("C20", "C01"):
+    SPECS[_p]["contracts"] += ["smpl_extract.akai.sample:SampleAdapter._decode_element[loops=8]"]
+SPECS["C20"]["level_text"] += "; SampleAdapter._decode_element over the full 8-slot loop table: every slot with a positive duration is listed whatever the sample type"
+
+# C19: the IIR class's state sizing / reset (plain-Python part of iir.pyx)
+SPECS["C19"]["contracts"] += ["lemma:iir_fresh_and_reset_state"]
+SPECS["C19"]["level_text"] += "; IirFilter: a new filter carries len(B)-1 past inputs and len(A)-1 past outputs, all zero, and get_remaining() resets it to exactly that state"
